@@ -69,6 +69,7 @@ type FuncContract struct {
 	Atomic     bool
 	Holds      []string // monitors held on entry (requires held)
 	DeclPkg    string   // package of the contract file that declares it (name resolution scope)
+	Decreases  []Clause // termination measure for recursive calls
 }
 
 type GhostDecl struct {
@@ -330,6 +331,12 @@ func parseClause(fc *FuncContract, s, src string, resolve func(string) string) e
 			return err
 		}
 		fc.Ensures = append(fc.Ensures, c)
+	case "decreases":
+		c, err := mk(rest)
+		if err != nil {
+			return err
+		}
+		fc.Decreases = append(fc.Decreases, c)
 	case "assert":
 		c, err := mk(rest)
 		if err != nil {
